@@ -16,7 +16,9 @@ RULE = ("every optimiser class of pybrops.opt.algo (16 classes incl. the four me
         "matching encoding with harness-supplied objective/constraint transformations: separable, non-separable (pairwise penalty), "
         "tied/plateau values, active inequality constraints, 1-3 objectives; candidate set sizes >= subset size (including equal and "
         "size+1); ngen 3-30, pop_size 8-40; generators Generator/RandomState/default.  Non-trivial: >= 2 candidates; distinct = digest of "
-        "(class, hyper-parameters, problem data).")
+        "(class, hyper-parameters, problem data).  The three function-based optimisers (Unconstrained* set GA, NSGA-II set GA, "
+        "steepest-ascent set hill-climber; optimize(objfn, k, sspace, objfn_wt)) are run on additive / pairwise objectives where "
+        "repeating a member pays, k 1-6, 1-14 spare candidates.")
 ASSUME = ["an optimiser that raises returns no solution: counted under 'raised', not a violation (property constrains returned solutions)",
           "dominance for the front clause is Pareto dominance of the reported weighted objectives among feasible members, smaller total "
           "violation among infeasible ones, feasible beats infeasible",
@@ -337,9 +339,70 @@ def one_run(ctx, c, family="opt"):
                       witness=dict(w, current=cur, improving_exchange=better), coords=coords)
 
 
+LEGACY = ["UnconstrainedSetGeneticAlgorithm", "UnconstrainedNSGA2SetGeneticAlgorithm", "UnconstrainedSteepestAscentSetHillClimber"]
+
+
+def legacy_run(ctx, c):
+    """The function-based optimisers kept beside the Problem-based ones: ``optimize(objfn, k, sspace, objfn_wt)`` returns
+    ``(objective values, decisions, misc)``; the same feasibility and truthfulness clauses apply to what they return."""
+    import random
+    import warnings
+    g = ctx.rng("legacy", c)
+    name = LEGACY[c % len(LEGACY)]
+    multi = name == "UnconstrainedNSGA2SetGeneticAlgorithm"
+    k = int(g.integers(1, 7)); n = k + int(g.integers(1, 6)) if g.random() < 0.7 else k + int(g.integers(1, 15))
+    sspace = (g.permutation(200)[:n] + int(g.choice([0, 100, 1000]))).astype("int64")
+    val = {int(e): v for e, v in zip(sspace, g.uniform(0.5, 1.5, (n, 2)))}
+    shape = str(g.choice(["additive", "additive", "pairs"]))
+
+    def objfn(x):
+        x = [int(e) for e in numpy.asarray(x).ravel()]
+        a = sum(val[e][0] for e in x); b = sum(val[e][1] for e in x)      # a repeated member counts twice: repeating pays
+        if shape == "pairs":
+            a -= 0.05 * sum(abs(e1 - e2) % 3 for e1, e2 in itertools.combinations(x, 2))
+        return (a, -b) if multi else a
+    wt = numpy.array([1.0, -1.0]) if multi else 1.0
+    seed = int(g.integers(2 ** 31)); random.seed(seed)               # DEAP's selection draws from the python stream
+    rng = numpy.random.default_rng(seed) if g.random() < 0.6 else numpy.random.RandomState(seed)
+    cls = algo_class(name)
+    icls = "function-based optimiser/%s/n-k=%s" % (shape, "1" if n - k == 1 else "2-5" if n - k <= 5 else ">5")
+    coords = [c, "legacy"]
+    ctx.case("legacy:%s/%s" % (name, icls), name, k, sspace, sorted(val.items()), shape, seed, trivial=n < 2)
+    site = name + ".optimize"
+    try:
+        with warnings.catch_warnings():
+            warnings.simplefilter("ignore")
+            if name == "UnconstrainedSteepestAscentSetHillClimber":
+                algo = cls(rng=rng)
+            else:
+                mu = int(g.choice([8, 12, 20])); algo = cls(ngen=int(g.integers(3, 30)), mu=mu, lamb=mu, M=float(g.choice([0.5, 1.5, 3.0])), rng=rng)
+            ss0 = sspace.copy()
+            F, X, misc = algo.optimize(objfn, k, sspace, wt)
+    except Exception as e:
+        ctx.raised(site, e)
+        return
+    X2 = numpy.atleast_2d(numpy.asarray(X)); F2 = numpy.asarray(F, dtype=float).reshape(len(X2), -1)
+    w = {"class": name, "k": k, "sspace": ss0, "returned": X2, "reported": F2, "seed": seed}
+    members = set(ss0.tolist())
+    bad = [r.tolist() for r in X2 if len(r) != k or len(set(r.tolist())) != len(r) or not set(r.tolist()) <= members]
+    ctx.check("C06.feasible", not bad, site, "returned subsets have the requested size and consist of distinct members of the search space",
+              icls, witness=dict(w, offending=bad[:3]), coords=coords)
+    pop = misc.get("pop_decn") if isinstance(misc, dict) else None
+    if pop is not None:
+        badp = [numpy.asarray(r).tolist() for r in pop if len(set(numpy.asarray(r).tolist())) != k or not set(numpy.asarray(r).tolist()) <= members]
+        ctx.check("C06.feasible", not badp, site, "final population handed back consists of subsets of distinct members of the search space",
+                  icls, witness=dict(w, offending=badp[:3]), coords=coords)
+    fresh = numpy.array([numpy.ravel(objfn(r)) for r in X2], dtype=float)
+    ctx.check("C06.truthful", fresh.shape == F2.shape and bool(numpy.all(numpy.abs(fresh - F2) <= TOL * (1 + numpy.abs(fresh)))), site,
+              "reported objective values equal a fresh evaluation at the returned decision", icls, witness=dict(w, fresh=fresh), coords=coords)
+    ctx.check("C06.pure", numpy.array_equal(sspace, ss0), site, "the search space handed in is not modified", icls, witness=w, coords=coords)
+
+
 def run_shard(ctx):
     for c in ctx.case_ids(16 * 20, 16 * 16 * 60):
         one_run(ctx, c)
+    for c in ctx.case_ids(16 * 9, 16 * 16 * 20):
+        legacy_run(ctx, c)
     for c in ctx.case_ids(2400, 60000):
         one_run(ctx, c, "cheap")
     # live-object histories; case ids are handed out in whole triples so that A, B, C of one history run in the same shard
@@ -350,6 +413,8 @@ def run_shard(ctx):
 
 def replay(ctx, coords):
     c = int(coords[0])
+    if coords[1] == "legacy":
+        return legacy_run(ctx, c)
     if coords[1] == "live":      # replay the history up to and including the failing problem
         for j_ in range(3 * (c // 3), c):
             one_run(ctx, j_, "live")
